@@ -66,6 +66,10 @@ class PathEnd(Exception):
     pass
 
 
+class LoopNext(Exception):
+    pass
+
+
 class ShapeEval:
     def __init__(self, P: Project, f: FunctionInfo, consts: Dict[str, bool]):
         self.P, self.f, self.consts = P, f, consts
@@ -256,10 +260,28 @@ class ShapeEval:
             return None
         return val ^ (neg % 2 == 1)
 
+    def resolved(self, node: ast.AST) -> ast.AST:
+        """``node`` with every conditional expression whose test is decided by the constants replaced by the chosen arm."""
+        import copy
+        ev = self
+
+        class R(ast.NodeTransformer):
+            def visit_IfExp(self, n):
+                self.generic_visit(n)
+                t = ev.test(n.test)
+                if t is None:
+                    return n
+                return n.body if t else n.orelse
+        return ast.fix_missing_locations(R().visit(copy.deepcopy(node)))
+
     # ---- statements
     def run(self, stmts: List[ast.stmt]) -> None:
         for st in stmts:
             if isinstance(st, ast.Expr) and isinstance(st.value, ast.Constant):
+                continue
+            if isinstance(st, ast.Continue):
+                raise LoopNext()
+            if isinstance(st, ast.Pass):
                 continue
             if isinstance(st, ast.Return):
                 self.returns.append((st, self.value(st.value)))
@@ -275,14 +297,14 @@ class ShapeEval:
                     else:
                         self.env[tgt.id] = self.value(st.value)
                 elif isinstance(tgt, ast.Subscript) and isinstance(tgt.value, ast.Name):
-                    self.trace.append(norm(st))
+                    self.trace.append(norm(self.resolved(st)))
                     v = self.env.get(tgt.value.id)
                     if isinstance(v, tuple) and v[0] == "mask0" and isinstance(st.value, ast.Constant) and st.value.value is False:
                         self.env[tgt.value.id] = ("mask", v[1] - Lin(0, 1))
                     # item assignment preserves the shape of the container
                 continue
             if isinstance(st, ast.AugAssign):
-                self.trace.append(norm(st))
+                self.trace.append(norm(self.resolved(st)))
                 continue  # shape preserving
             if isinstance(st, ast.If):
                 t = self.test(st.test)
@@ -303,6 +325,8 @@ class ShapeEval:
                 self.trace.append("for " + norm(st.target) + " in " + norm(st.iter) + ":")
                 try:
                     self.run(st.body)
+                except LoopNext:
+                    pass
                 except PathEnd:
                     raise Unknown("return inside a loop")
                 self.trace.append("end for")
